@@ -98,7 +98,13 @@ func readPattern(r io.Reader, bufs []int, limit int) (out []byte, err error, rul
 			return out, e, ""
 		}
 		if n < size {
-			return out, nil, fmt.Sprintf("read #%d returned %d of %d bytes without ending the stream (err == nil)", k, n, size)
+			// a short read is the last data of the stream: the next call
+			// must report the end (or the error) without further data
+			n2, e2 := r.Read(make([]byte, size))
+			if n2 == 0 && e2 != nil {
+				return out, e2, ""
+			}
+			return out, nil, fmt.Sprintf("read #%d returned %d of %d bytes without ending the stream (err == nil, and the next read returned n=%d err=%v)", k, n, size, n2, e2)
 		}
 		if len(out) > limit {
 			return out, nil, "output longer than any possible decoding"
